@@ -334,6 +334,9 @@ class FakeSnowflakeCursor:
             schema = table.db or self._conn.schema
             assert catalog and schema
             self._duck_conn.execute(info_schema.insert_table_comment_sql(catalog, schema, table.name, comment))
+            if not result_sql:
+                # COMMENT ON / ALTER TABLE .. SET COMMENT: the insert above replaced the status row on the duckdb cursor
+                result_sql = SQL_SUCCESS
 
         if (text_lengths := cast(list[tuple[str, int]], transformed.args.get("text_lengths"))) and (
             table := transformed.find(exp.Table)
